@@ -288,12 +288,23 @@ class DCAwareRoundRobinPolicy(LoadBalancingPolicy):
         # control connection startup/refresh
         if not self.local_dc and host.datacenter:
             if host.endpoint in self._endpoints:
+                undetected_dc = self.local_dc
                 self.local_dc = host.datacenter
                 log.info("Using datacenter '%s' for DCAwareRoundRobinPolicy (via host '%s'); "
                          "if incorrect, please specify a local_dc to the constructor, "
                          "or limit contact points to local cluster nodes" %
                          (self.local_dc, host.endpoint))
                 del self._endpoints
+                # hosts populated before any datacenter was known count as local (see _dc):
+                # move them from the placeholder group to the detected local datacenter
+                with self._hosts_lock:
+                    unlocated = self._dc_live_hosts.pop(undetected_dc, ())
+                    local_hosts = self._dc_live_hosts.get(self.local_dc, ())
+                    for h in unlocated:
+                        if h not in local_hosts:
+                            local_hosts = local_hosts + (h, )
+                    if local_hosts:
+                        self._dc_live_hosts[self.local_dc] = local_hosts
 
         dc = self._dc(host)
         with self._hosts_lock:
